@@ -14,6 +14,8 @@ use serde_json::{Value as J, json};
 pub struct QuadLogp {
     pub p: Vec<Vec<f64>>,
     pub m: Vec<f64>,
+    /// coefficient of an added quartic term -lambda * sum r_i^4 / 4 (0 = Gaussian)
+    pub quartic: f64,
 }
 #[derive(Debug, thiserror::Error)]
 #[error("never")]
@@ -39,12 +41,14 @@ impl CpuLogpFunc for QuadLogp {
         let n = x.len();
         let r: Vec<f64> = (0..n).map(|i| x[i] - self.m[i]).collect();
         let mut lp = 0.0;
+        let mut q4 = 0.0;
         for i in 0..n {
             let pr: f64 = (0..n).map(|j| self.p[i][j] * r[j]).sum();
-            g[i] = -pr;
+            g[i] = -pr - self.quartic * r[i] * r[i] * r[i];
             lp += r[i] * pr;
+            q4 += r[i] * r[i] * r[i] * r[i];
         }
-        Ok(-0.5 * lp)
+        Ok(-0.5 * lp - self.quartic * q4 / 4.0)
     }
     fn expand_vector<R: nuts_rs::rand::Rng + ?Sized>(&mut self, _r: &mut R, a: &[f64]) -> Result<Vec<f64>, CpuMathError> {
         Ok(a.to_vec())
@@ -230,6 +234,70 @@ fn run_relational<T: nuts_rs::verif::Transformation<CpuMath<QuadLogp>>>(
             }
         }
     }
+    // Volume preservation: the Jacobian determinant of (x, v) -> (x', v') is one (central differences; the
+    // Microcanonical map lives on a sphere and is not included).
+    let dim = x0.len();
+    if kind != KineticEnergyKind::Microcanonical && dim <= 4 {
+        let mut step = |x: &[f64], v: &[f64]| -> Option<Vec<f64>> {
+            let mut st = ham.init_state(&mut math, x).ok()?;
+            verif::point_set_velocity(&mut math, &mut st, v);
+            ham.initialize_trajectory(&mut math, &mut st, false, &mut rng).ok()?;
+            let e = st.point_energy();
+            let LeapfrogResult::Ok(o) = ham.leapfrog(&mut math, &st, dir, 1.0, e, 1e300, &mut Null) else { return None };
+            let d = verif::point_dump(&mut math, &o);
+            let mut r = jv(&d["x"]);
+            r.extend(jv(&d["v"]));
+            Some(r)
+        };
+        let n2 = 2 * dim;
+        let base: Vec<f64> = x0.iter().chain(v0.iter()).cloned().collect();
+        let scale = 1.0 + base.iter().fold(0.0f64, |m, x| m.max(x.abs()));
+        // five-point stencil (error O(h^4))
+        let h = 1e-3 * scale;
+        let mut jac = vec![vec![0.0; n2]; n2];
+        let mut ok = true;
+        for j in 0..n2 {
+            let mut at = |k: f64| -> Option<Vec<f64>> {
+                let mut p = base.clone();
+                p[j] += k * h;
+                step(&p[..dim], &p[dim..])
+            };
+            match (at(2.0), at(1.0), at(-1.0), at(-2.0)) {
+                (Some(p2), Some(p1), Some(m1), Some(m2)) => {
+                    for i in 0..n2 {
+                        jac[i][j] = (-p2[i] + 8.0 * p1[i] - 8.0 * m1[i] + m2[i]) / (12.0 * h);
+                    }
+                }
+                _ => ok = false,
+            }
+        }
+        if ok {
+            // determinant by elimination with partial pivoting
+            let mut det = 1.0;
+            let mut m = jac;
+            for c in 0..n2 {
+                let p = (c..n2).max_by(|a, b| m[*a][c].abs().partial_cmp(&m[*b][c].abs()).unwrap()).unwrap();
+                if m[p][c] == 0.0 {
+                    det = 0.0;
+                    break;
+                }
+                if p != c {
+                    m.swap(p, c);
+                    det = -det;
+                }
+                det *= m[c][c];
+                for r in c + 1..n2 {
+                    let f = m[r][c] / m[c][c];
+                    for k in c..n2 {
+                        m[r][k] -= f * m[c][k];
+                    }
+                }
+            }
+            if det.is_finite() && (det - 1.0).abs() > 1e-6 {
+                return Err(format!("{kind:?}: the step is not volume preserving: Jacobian determinant {det}"));
+            }
+        }
+    }
     if standard_normal && kind == KineticEnergyKind::ExactNormal {
         let de = verif::point_dump(&mut math, &out)["energy"].as_f64().unwrap() - a["energy"].as_f64().unwrap();
         if de.abs() > 1e-12 * (1.0 + a["energy"].as_f64().unwrap().abs()) {
@@ -257,7 +325,7 @@ pub fn replay_case(case: &J) -> Result<usize, String> {
     let t = &c["T"];
     let d = c["y"].as_array().unwrap().len();
     let p: Vec<Vec<f64>> = c["P"].as_array().unwrap().iter().map(qv).collect();
-    let logp = QuadLogp { p, m: qv(&c["m"]) };
+    let logp = QuadLogp { p, m: qv(&c["m"]), quartic: 0.0 };
     let sigma = qv(&t["sigma"]);
     let mean = qv(&t["mean"]);
     let mu = qv(&t["mu"]);
@@ -288,8 +356,19 @@ pub fn replay_case(case: &J) -> Result<usize, String> {
         && mu.iter().all(|x| *x == 0.0)
         && logp.m.iter().all(|x| *x == 0.0)
         && (0..d).all(|i| (0..d).all(|j| logp.p[i][j] == if i == j { 1.0 } else { 0.0 }));
-    for kind in [KineticEnergyKind::ExactNormal, KineticEnergyKind::Microcanonical] {
-        let mut math = CpuMath::new(logp.clone());
+    let plans = [
+        (KineticEnergyKind::ExactNormal, 0.0),
+        (KineticEnergyKind::Microcanonical, 0.0),
+        // the same properties on a density that is not Gaussian (quartic term added)
+        (KineticEnergyKind::Euclidean, 0.25),
+        (KineticEnergyKind::ExactNormal, 0.25),
+        (KineticEnergyKind::Microcanonical, 0.25),
+    ];
+    for (kind, quartic) in plans {
+        // keep the cubic part of the gradient comparable to the linear one at the points of this case
+        let x0c = qv(&case["x0"]);
+        let r2 = x0c.iter().zip(&logp.m).map(|(a, b)| (a - b) * (a - b)).fold(0.0f64, f64::max);
+        let mut math = CpuMath::new(QuadLogp { quartic: quartic / (1.0 + r2), ..logp.clone() });
         let mut lr = verif::low_rank_mass_matrix(&mut math);
         lr.update(
             &mut math,
@@ -299,7 +378,7 @@ pub fn replay_case(case: &J) -> Result<usize, String> {
             faer::Mat::from_fn(d, rank, |i, k| u[k][i]),
             faer::Col::from_fn(d, |i| mu[i]),
         );
-        match run_relational(math, lr, case, kind, standard) {
+        match run_relational(math, lr, case, kind, standard && quartic == 0.0) {
             Ok(()) => variants += 1,
             Err(e) if e == "SKIP" => {}
             Err(e) => return Err(e),
